@@ -61,6 +61,8 @@ class Query:
         self.pyfunc = pyfunc
         self.bounds = bounds
         self.expect_fail = list(expect_fail)
+        self.unreachable = []       # functions whose body is replaced by assert(false): only spurious fn-pointer candidates may name them
+        self.concrete = []          # [(assertion substring, C file under harness/, expected stdout substring)]
 
 
 class Result:
@@ -145,7 +147,7 @@ def detect_stubs(q, wd):
                       wd, 120)
     if rc != 0:
         return None, o
-    names = sorted(set(re.findall(r"\bSTUB_(secp256k1_\w+)\s*\(", o)))
+    names = sorted(set(re.findall(r"\bSTUB_(\w+)\s*\(", o)))
     return names, ""
 
 
@@ -174,6 +176,21 @@ def build(q, wd, res):
             res.reason = "goto-instrument --replace-calls failed: " + o[-3000:]
             return None
         cur = nxt
+    if q.unreachable:
+        for step in (["--remove-function-body", None], ["--generate-function-body", None, "--generate-function-body-options", "assert-false-assume-false"]):
+            n += 1
+            nxt = os.path.join(wd, "q%d.gb" % n)
+            if step[0] == "--remove-function-body":
+                args = []
+                for f in q.unreachable:
+                    args += ["--remove-function-body", f]
+            else:
+                args = ["--generate-function-body", "^(" + "|".join(q.unreachable) + ")$", "--generate-function-body-options", "assert-false-assume-false"]
+            rc, o, _, _ = run(["goto-instrument"] + args + [cur, nxt], wd, 300)
+            if rc != 0:
+                res.reason = "goto-instrument %s failed: %s" % (args[:2], o[-2000:])
+                return None
+            cur = nxt
     for extra in q.instrument:
         n += 1
         nxt = os.path.join(wd, "q%d.gb" % n)
@@ -364,6 +381,44 @@ def finding_matches(f, prop, qname, pdesc):
     return (f.get("property") == prop and f.get("query") == qname and f.get("assertion", "") in pdesc)
 
 
+def concrete_replay(q, cfile, expect):
+    """compile a concrete program against the REAL, unstubbed library code of the tree under test and run it"""
+    wd = os.path.join(os.environ.get("VERIF_SCRATCH", "/tmp"), "verif-replay-%d" % os.getpid())
+    shutil.rmtree(wd, ignore_errors=True)
+    os.makedirs(wd)
+    try:
+        exe = os.path.join(wd, "replay")
+        src = os.path.join(VERIF, "harness", cfile)
+        cmd = ["gcc", "-O1", "-w", "-DECMULT_WINDOW_SIZE=15", "-DCOMB_BLOCKS=43", "-DCOMB_TEETH=6"] + include_args() + [src, os.path.join(REPO, "src", "precomputed_ecmult.c"),
+                                                    os.path.join(REPO, "src", "precomputed_ecmult_gen.c"), "-o", exe]
+        rc, o, _, _ = run(cmd, wd, 300, mem_gb=8)
+        if rc != 0:
+            return None, "replay build failed: " + o[-1500:]
+        rc, o, _, _ = run([exe], wd, 120, mem_gb=4)
+        return (expect in o), o[-1500:]
+    finally:
+        shutil.rmtree(wd, ignore_errors=True)
+
+
+def filter_trace(t):
+    """keep the states of harness / stub functions (inputs, stub results, outputs); library-internal states are dropped"""
+    blocks = re.split(r"\n(?=State \d+ )", t)
+    out = [blocks[0][:2000]]
+    kept = 0
+    for b in blocks[1:]:
+        m = re.match(r"State \d+ file (\S+) function (\w+)", b)
+        if m and (m.group(2).startswith("harness_") or m.group(2).startswith("STUB_") or "/verif/harness" in m.group(1)):
+            if len(b) > 1500:
+                b = b[:1500] + " ...\n"
+            out.append(b)
+            kept += 1
+            if kept > 3000:
+                out.append("... (trace truncated)")
+                break
+    tail = t[t.rfind("Violated property"):] if "Violated property" in t else ""
+    return "\n".join(out) + "\n" + tail[:3000]
+
+
 def write_replay(prop, q, k, d, trace):
     os.makedirs(os.path.join(VERIF, "replay"), exist_ok=True)
     h = hashlib.sha1((q.name + k).encode()).hexdigest()[:8]
@@ -374,7 +429,7 @@ def write_replay(prop, q, k, d, trace):
         f.write("---- counterexample (solver assignment, cbmc --trace) ----\n")
         # keep the state assignments; drop the preamble
         i = trace.find("Trace for")
-        f.write(trace[i:] if i >= 0 else trace[-20000:])
+        f.write(filter_trace(trace[i:]) if i >= 0 else trace[-20000:])
     return path
 
 
@@ -415,6 +470,23 @@ def finish(prop, tier, seed, results, level_text, assumptions, t0, extra_cov=Non
                     print("KNOWN-FINDING: property=%s %s" % (prop, m[0].get("what", m[0]["_line"])))
                 else:
                     unknown.append((k, d))
+            gap = False
+            for (k, d) in list(unknown):
+                for (sub, cfile, expect) in q.concrete:
+                    if sub in d:
+                        ok, out = concrete_replay(q, cfile, expect)
+                        if ok:
+                            print("  concrete replay against the real library reproduces: %s" % out.strip().splitlines()[-1])
+                            print("  violated: query=%s [%s] %s" % (q.name, k, d))
+                            print("VIOLATION property=%s replay=%s" % (prop, os.path.join(VERIF, "harness", cfile)))
+                            violations += 1
+                        else:
+                            print("MODEL-GAP: property=%s query=%s counterexample for '%s' does not reproduce on the real code: %s" % (prop, q.name, d, out))
+                            gap = True
+                        unknown.remove((k, d))
+                        break
+            if gap:
+                broken += 1
             if unknown:
                 violations += 1
                 rp = None
